@@ -159,7 +159,7 @@ def _sym_kind(sym: dict[str, Any], cfgd: dict[str, Any]) -> str:
 def _alphabet(cfgd: dict[str, Any], depth: int, tier: str, statuses: list[int]) -> list[dict[str, Any]]:
     """Alphabet for position *depth* (0-based).  Full Retry-After corpus near the root, reduced deeper."""
     syms: list[dict[str, Any]] = [{"k": "exc", "exc": n} for n in EXC_RETRYABLE + EXC_FATAL + EXC_AMBIGUOUS]
-    full = depth == 0 or (tier == "thorough" and depth == 1 and cfgd["max_retries"] <= 2)
+    full = depth == 0 or (tier == "thorough" and depth == 1 and cfgd.get("deep"))
     ras = RETRY_AFTER_FULL if full else RETRY_AFTER_SMALL if depth == 1 else RETRY_AFTER_TINY
     if depth >= 2:
         statuses = [s for s in statuses if s in (200, 404, 413, 429, 500, 502, 503, 504)]
@@ -845,11 +845,13 @@ def _grid(tier: str) -> list[dict[str, Any]]:
         return quick
     out = list(quick)
     for mr in (0, 1, 2, 3):
-        for base, mx in ((0.0, 0.0), (0.5, 30.0), (10.0, 0.05), (0.5, 0.0), (1e308, 5.0)):
+        for base, mx in ((0.0, 0.0), (0.5, 30.0), (1e308, 5.0)):
             for conn in (True, False):
                 for ra in (True, False):
-                    for rs in (DEFAULT_RS, [429, 500], []):
-                        if mr == 3 and (rs != DEFAULT_RS or base not in (0.5, 10.0)):
+                    for rs in (DEFAULT_RS, [500], []):
+                        if mr == 3 and not (rs == DEFAULT_RS and base == 0.5 and conn == ra):
+                            continue
+                        if rs == [] and not (conn and ra):
                             continue
                         out.append({"max_retries": mr, "backoff_base": base, "backoff_max": mx, "retryable": rs, "conn": conn, "ra": ra})
     return out
@@ -880,6 +882,8 @@ def main(tier: str, seed: int) -> int:
     grid = _grid(tier)
     rng = random.Random(seed)
     for gi, cfgd in enumerate(grid):
+        if tier == "thorough" and gi < 2:
+            cfgd["deep"] = True  # full Retry-After corpus also at the second position
         statuses = list(statuses_quick)
         if tier == "thorough" and gi < 2:
             statuses = list(range(200, 600))
@@ -888,7 +892,7 @@ def main(tier: str, seed: int) -> int:
         for entry in ("post", "options") if gi < 2 or tier == "thorough" and gi % 7 == 0 else ("post",):
             roots = _alphabet(cfgd, 0, tier, statuses)  # every status at the root; representatives deeper
             deep_statuses = statuses_quick
-            jitter = ["lo", "hi", "real"] if (gi < 2 or tier == "thorough") and entry == "post" and cfgd["max_retries"] < 3 else ["hi", "real"] if entry == "post" else ["hi"]
+            jitter = ["lo", "hi", "real"] if gi < 2 and entry == "post" else ["hi", "real"] if entry == "post" else ["hi"]
             # split the roots over a few shards for the big configs
             nsplit = 4 if cfgd["max_retries"] >= 2 else 1
             for part in shard.split(roots, nsplit):
